@@ -313,7 +313,7 @@ func (p *specSuite[I]) execute(c *ctx) suiteResult {
 	wg.Wait()
 
 	res := suiteResult{Suite: p.s.Suite, Evaluations: len(items), Exhaustive: exhaustive && n == 0 || exhaustive,
-		Classes: map[string]int{}}
+		Classes: map[string]int{}, CaseFiles: []string{}, Failures: []caseRec{}, Samples: []caseRec{}}
 	keys := map[string]bool{}
 	seenSig := map[string]int{}
 	for i := range recs {
